@@ -45,6 +45,21 @@ func runBoolean(entry int, ct c2.ClipType, fr c2.FillRule, subj, clip Paths) (so
 		if !c.Execute(ct, fr, &sol) {
 			panic("Execute returned false")
 		}
+	case 3:
+		// a reused engine: another operation is executed first, then the one under test
+		c := c2.NewClipper64()
+		c.AddPaths(subj, c2.Subject, false)
+		if clip != nil {
+			c.AddPaths(clip, c2.Clip, false)
+		}
+		first := Paths{}
+		c.Execute(allClipTypes[(int(ct)+1)%4], allFillRules[(int(fr)+1)%4], &first)
+		c2.VerifStopRecording()
+		c2.VerifStartRecording() // only the events of the execution under test are attributed
+		sol = Paths{}
+		if !c.Execute(ct, fr, &sol) {
+			panic("Execute returned false")
+		}
 	default:
 		sol = c2.BooleanOpPaths64(ct, subj, clip, fr)
 	}
